@@ -325,6 +325,34 @@ def reported_code_case(col):
     col.add(None if bad is None else {"sig": "native::threading::reported_error_code", "what": bad, "input": {"kernels": ["moving kernel reporting codes 2, 0, 1", "Gibbs b = 10 a"]}})
 
 
+def model_replaced_before_build_case(col):
+    """one builder: set_model(A), kernels added, then set_model(B) (a corrected model with the same names: sigma = softplus instead of exp) + its state, build, sample:
+    the derived quantities carried in the state are those of B - the model the engine was built with - recomputed from the stored parameters"""
+    def build(link):
+        mu = lsl.param(0.0, lsl.Dist(tfd.Normal, loc=0.0, scale=3.0), name="mu")
+        ls = lsl.param(0.1, lsl.Dist(tfd.Normal, loc=0.0, scale=1.0), name="log_sigma")
+        sigma = lsl.Var(lsl.Calc(link, ls), name="sigma")
+        y = lsl.obs(Y, lsl.Dist(tfd.Normal, loc=mu, scale=sigma), name="y")
+        return lsl.GraphBuilder().add(y).build_model()
+    model_a, model_b = build(jnp.exp), build(jax.nn.softplus)
+    b = gs.EngineBuilder(seed=4, num_chains=2)
+    b.set_model(gs.LieselInterface(model_a))
+    b.add_kernel(gs.RWKernel(["mu"], initial_step_size=1.0))
+    b.add_kernel(gs.RWKernel(["log_sigma"], initial_step_size=0.5))
+    b.set_model(gs.LieselInterface(model_b))
+    b.set_initial_values(model_b.state)
+    b.set_epochs([EpochConfig(EpochType.INITIAL_VALUES, 1, 1, None), EpochConfig(EpochType.POSTERIOR, 12, 1, None)])
+    b.positions_included = ["sigma"]
+    b.show_progress = False
+    eng = b.build()
+    eng.sample_all_epochs()
+    smp = {k: np.asarray(v) for k, v in eng.get_results().get_samples().items()}
+    want = np.asarray(jax.nn.softplus(jnp.asarray(smp["log_sigma"])))
+    ok = np.allclose(smp["sigma"], want, rtol=1e-5, atol=1e-6) and len(np.unique(smp["log_sigma"])) > 2
+    col.add(None if ok else {"sig": "native::coherence::model_replaced_before_build", "what": f"stored sigma differs from softplus(log_sigma) of the engine's model by up to {float(np.abs(smp['sigma'] - want).max()):.4f} "
+                             "(it follows the model that was set when the kernels were added)", "input": {"calls": ["set_model(A)", "add_kernel x 2", "set_model(B)", "set_initial_values(B.state)", "build"]}})
+
+
 def order_case(col, via_engine):
     """two deterministic Gibbs kernels on disjoint blocks whose composition is order-sensitive (a <- b + 1, then b <- 2a + 1);
     identifiers chosen so that alphabetical order differs from the configured order"""
@@ -372,6 +400,10 @@ def bounded(tier, seed):
     col = util.Collector()
     from rtc.c01 import CORE_RULE, core_native
     core_native(col, seed)
+    try:
+        model_replaced_before_build_case(col)
+    except Exception as e:
+        col.add({"sig": f"native::coherence::exception::{type(e).__name__}", "what": str(e)[:200], "input": {"scenario": "model replaced before build"}})
     try:
         reported_code_case(col)
     except Exception as e:
